@@ -222,7 +222,7 @@ def gen_asm_source(rng, sections=None, random_bytes_p=0.35):
     return "\n".join(out) + "\n", meta
 
 
-def assemble(src: str, bits: int = 64) -> bytes | None:
+def assemble(src: str, bits=64) -> bytes | None:
     """GNU as on `src`; returns the ELF object bytes, or None if as rejects it."""
     key = util.digest([src, bits])
     if key in _AS_CACHE:
@@ -379,11 +379,12 @@ def objdump_of(elf: bytes, sections=None, style="att"):
 
 
 RULE_NAMES = ["rule.yaml", "rule.yaml", "rules/my rule.yaml", "r.yml", "r\u00e8gle.yaml", "deep/er/dir/rule.yaml", "rule",
-              "h#sh & amp.yaml", "100%.yaml", "q'uote.yaml", "br[ack]et{s}.yaml"]
+              "h#sh & amp.yaml", "100%.yaml", "q'uote.yaml", "br[ack]et{s}.yaml", "~/rule.yaml", "$HOME/rule.yaml"]
 ASM_NAMES = ["in.s", "in.s", "dir with space/in put.s", "sub/listing.s", "dump.txt", "in", "50%_packed.s", "star*.s", "we ird$name;x.s",
-             "listing.o", "UPPER.ASM"]
-BIN_NAMES = ["in.bin", "in.o", "bin dir/a b.o", "prog", "sub/lib.so.1", "caf\u00e9.o", "100%.o", "obj.s", "obj.S", "code.asm", "a'b\"c.o", "x[1]?.o"]
-MACRO_DIRS = ["macros", "macros", "my macros", "m/acro", "100% macros"]
+             "listing.o", "UPPER.ASM", "~/in.s", "$HOME/in.s", "${PATH}.s"]
+BIN_NAMES = ["in.bin", "in.o", "bin dir/a b.o", "prog", "sub/lib.so.1", "caf\u00e9.o", "100%.o", "obj.s", "obj.S", "code.asm", "a'b\"c.o", "x[1]?.o",
+             "~/prog", "$HOME/a.o"]
+MACRO_DIRS = ["macros", "macros", "my macros", "m/acro", "100% macros", "~", "$HOME/macros"]
 
 
 def pick_names(rng):
@@ -477,3 +478,36 @@ def gen_big_source(rng, n):
         mn, ops = gen_instruction(rng, valid_for_as=True, labels=["L1"])
         out.append("\t" + mn + ("\t" + ",".join(ops) if ops else ""))
     return "\n".join(out) + "\n", [{"name": ".text", "raw": False, "data": False}]
+
+
+def to_pe(elf: bytes):
+    """The same code as a PE image (objcopy -O pei-x86-64): GNU objdump accepts it like any other object."""
+    d = os.path.join(util.scratch_root(), f"as-{os.getpid()}")
+    os.makedirs(d, exist_ok=True)
+    a, b = os.path.join(d, "pe_in.o"), os.path.join(d, "pe_out.exe")
+    with open(a, "wb") as fh:
+        fh.write(elf)
+    p = subprocess.run(["objcopy", "-O", "pei-x86-64", a, b], stdout=subprocess.PIPE, stderr=subprocess.PIPE)
+    if p.returncode != 0 or not os.path.isfile(b):
+        return None
+    with open(b, "rb") as fh:
+        return fh.read()
+
+
+def make_thin_archive(members: list, subdir="thin_m"):
+    """(archive bytes, {relative member path: bytes}): a thin archive records its members by relative path."""
+    d = os.path.join(util.scratch_root(), f"as-{os.getpid()}", "thin")
+    import shutil
+    shutil.rmtree(d, ignore_errors=True)
+    os.makedirs(os.path.join(d, subdir))
+    rels = {}
+    for i, m in enumerate(members):
+        rel = f"{subdir}/m{i}.o"
+        with open(os.path.join(d, rel), "wb") as fh:
+            fh.write(m)
+        rels[rel] = m
+    p = subprocess.run(["ar", "rcTD", "libthin.a"] + sorted(rels), cwd=d, stdout=subprocess.PIPE, stderr=subprocess.PIPE)
+    if p.returncode != 0:
+        return None, None
+    with open(os.path.join(d, "libthin.a"), "rb") as fh:
+        return fh.read(), rels
